@@ -1,5 +1,15 @@
 """C03 — sequential plan validation decides validity and metric values exactly.
 
+P (real source, all plans of every length): SequentialPlanValidator._validate is executed symbolically with the simulator used by its
+contract (get_initial_state / get_unsatisfied_conditions / apply_unsafe / get_unsatisfied_goals return or raise any of the four exception
+classes the simulator documents; C01 is what they compute): loop invariant  trace[j] = state after the first j instances, every earlier
+step executable, metric_value = sum of the costs evaluated in the PRE-states (or the step count).  Proved: the result is VALID iff every
+step is executable and the final state satisfies the goals (and the final-state metric can be evaluated), INVALID carries a reason and a
+message, no exception escapes except the two documented usage errors (more than one metric; unsupported kind with
+error_on_failed_checks), every local is defined where it is read (empty plan included), and a VALID result with a metric reports exactly
+the specified value.  evaluate_quality_metric is proved against the contract _validate uses: action cost evaluated in `state` (the
+pre-state) and added, plan length + 1, final-state expression / oversubscription gain (loop invariant over the goals) in `next_state`.
+
 B: on the C01 problem family extended with one quality metric (action costs, plan length, final-state
 expression, oversubscription; or none), every plan up to the length bound including the empty plan:
 SequentialPlanValidator returns VALID iff the plan is executable and ends in a goal state under
@@ -13,7 +23,6 @@ from rtc import seqcheck as SC
 from spec import seqsem
 from spec.ev import ev, UNDEF
 
-UNITS = []
 USES_THEORY = False
 
 
@@ -170,3 +179,396 @@ def bounded(tier, seed):
 
 LEVEL = "other"
 EXPLANATION = __doc__
+
+
+# ======================================================================================================= proved layer
+import z3
+from pyvc.values import (Ref, Seq, Map, Opt, SBool, SRef, SInt, SReal, SUnion, SSeq, SMap, Rec, CList, CDict, Loc, ExcVal, fresh_name, zbool, zint, zreal,
+                         Unsupported, Str, Int as PInt, Real as PReal)
+from pyvc.values import Bool as PBool
+from pyvc.verify import Unit
+from pyvc.engine import LoopSpec
+from pyvc import builtins as B
+import unified_planning as _up
+import unified_planning.engines.plan_validator as _pv
+import unified_planning.engines.sequential_simulator as _ss
+from unified_planning.engines.results import ValidationResult as _VR, ValidationResultStatus as _VS
+from unified_planning.engines.sequential_simulator import InapplicabilityReasons as _IR
+from unified_planning.exceptions import (UPUsageError as _Usage, UPInvalidActionError as _Invalid, UPConflictingEffectsException as _Conflict,
+                                         UPStateMissingFluentError as _Missing, UPProblemDefinitionError as _ProbDef)
+from unified_planning.plans import SequentialPlan as _SeqPlan
+
+State03 = Ref("State03")
+Action03 = Ref("Action03")
+Params03 = Ref("Params03")
+AI03 = Ref("ActionInstance03", fields={"action": Action03, "actual_parameters": Params03})
+Metric03 = Ref("Metric03")
+for _m in ("is_minimize_action_costs", "is_minimize_sequential_plan_length", "is_minimize_expression_on_final_state",
+           "is_maximize_expression_on_final_state", "is_oversubscription"):
+    Metric03.observers[_m] = ((), PBool)
+Kind03 = Ref("ProblemKind03")
+Kind03.methods["unset_parameters"] = lambda eng, st, selfv, args, kw: iter([(st, None)])
+Problem03 = Ref("Problem03", _up.model.Problem, fields={"quality_metrics": Seq(Metric03)})
+Problem03.attrs["kind"] = lambda eng, st, p: Kind03.fresh("kind")
+Plan03 = Ref("Plan03", _SeqPlan, fields={"actions": Seq(AI03)})
+Sim03 = Ref("Simulator03")
+IFV03 = Ref("InterpretedFunctionValues03")
+FN03 = Ref("FNode03")
+_S, _A, _AC, _P, _M = State03.z3sort(), AI03.z3sort(), Action03.z3sort(), Params03.z3sort(), Metric03.z3sort()
+EXC = [None, _Usage, _Invalid, _Conflict, _Missing]
+S0 = z3.Const("initial_state", _S)
+NEXT = z3.Function("apply_unsafe.result", _S, _A, _S)
+UCRAISE = z3.Function("get_unsatisfied_conditions.raises", _S, _A, z3.IntSort())
+UCLEN = z3.Function("get_unsatisfied_conditions.len", _S, _A, z3.IntSort())
+APRAISE = z3.Function("apply_unsafe.raises", _S, _A, z3.IntSort())
+COST = z3.Function("action_cost_in", _S, _AC, _P, z3.RealSort())
+COSTRAISE = z3.Function("action_cost_in.raises", _S, _AC, _P, z3.IntSort())
+GRAISE = z3.Function("get_unsatisfied_goals.raises", _S, z3.BoolSort())
+GLEN = z3.Function("get_unsatisfied_goals.len", _S, z3.IntSort())
+FINAL = z3.Function("final_state_metric_in", _S, z3.RealSort())
+FINRAISE = z3.Function("final_state_metric_in.raises", _S, z3.BoolSort())
+TR = z3.Function("state_after", z3.IntSort(), _S)
+MS = z3.Function("metric_sum", z3.IntSort(), z3.RealSort())
+_obsM = lambda n: B._uf(f"Metric03.{n}()", _M, z3.BoolSort())     # noqa: E731
+is_costs, is_len = _obsM("is_minimize_action_costs"), _obsM("is_minimize_sequential_plan_length")
+is_minfin, is_maxfin, is_over = _obsM("is_minimize_expression_on_final_state"), _obsM("is_maximize_expression_on_final_state"), _obsM("is_oversubscription")
+
+
+def _raise_or(eng, st, code, n_classes, label):
+    """fork on an uninterpreted outcome code: 0 = normal return, k = raises EXC[k]"""
+    st.assume(code >= 0, code <= n_classes)
+    for k in range(n_classes + 1):
+        if eng.feasible(st, code == k):
+            s = st.fork().assume(code == k).note(f"{label}={k}")
+            yield s, k
+
+
+def _sim_contracts():
+    def supports(eng, st, selfv, args, kw):
+        yield st, SBool(z3.Bool("simulator_supports_kind"))
+
+    def get_initial_state(eng, st, selfv, args, kw):
+        yield st, State03.wrap(S0)
+
+    def guc(eng, st, selfv, args, kw):
+        state, ai = args[0], args[1]
+        for s, k in _raise_or(eng, st, UCRAISE(state.z, ai.z), 4, "uc"):
+            if k:
+                yield s, ExcVal(EXC[k], (), "get_unsatisfied_conditions")
+                continue
+            n = UCLEN(state.z, ai.z)
+            s.assume(n >= 0)
+            for s2, some in eng.branch(s, n > 0, "uc:nonempty"):
+                seq = Seq(FN03).fresh("unsat_conds")
+                s2.assume(seq.n == n)
+                yield s2, (s2.alloc(seq, "list"), _IR.VIOLATES_CONDITIONS if some else None)
+
+    def apply_unsafe(eng, st, selfv, args, kw):
+        state, ai = args[0], args[1]
+        for s, k in _raise_or(eng, st, APRAISE(state.z, ai.z), 4, "ap"):
+            yield s, (ExcVal(EXC[k], (), "apply_unsafe") if k else State03.wrap(NEXT(state.z, ai.z)))
+
+    def goals(eng, st, selfv, args, kw):
+        state = args[0]
+        for s, r in eng.branch(st, GRAISE(state.z), "goals:raise"):
+            if r:
+                yield s, ExcVal(_Missing, (), "get_unsatisfied_goals")
+            else:
+                seq = Seq(FN03).fresh("unsatisfied_goals")
+                s.assume(seq.n == GLEN(state.z), seq.n >= 0)
+                yield s, s.alloc(seq, "list")
+
+    def ifv(eng, st, selfv, args, kw):
+        yield st, IFV03.fresh("ifv")
+    Sim03.methods.update({"supports": supports, "get_initial_state": get_initial_state, "get_unsatisfied_conditions": guc,
+                          "apply_unsafe": apply_unsafe, "get_unsatisfied_goals": goals, "get_interpreted_functions_values": ifv})
+
+
+def _eqm_contract(eng, st, args, kw):
+    """contract of evaluate_quality_metric (proved against the real function in the unit EvaluateQualityMetric below)"""
+    sim, metric, mv, state, action, params, nxt = args
+    m = metric.z
+    for s, costs in eng.branch(st, is_costs(m), "eqm:costs"):
+        if costs:
+            for s2, k in _raise_or(eng, s, COSTRAISE(state.z, action.z, params.z), 2, "cost"):
+                if k:
+                    yield s2, ExcVal([None, _Usage, _Missing][k], (), "evaluate_quality_metric")
+                else:
+                    yield s2, SReal(zreal(mv) + COST(state.z, action.z, params.z))
+            continue
+        for s2, ln in eng.branch(s, is_len(m), "eqm:len"):
+            if ln:
+                yield s2, (mv + 1 if isinstance(mv, int) else SReal(zreal(mv) + 1))
+                continue
+            for s3, r in eng.branch(s2, FINRAISE(nxt.z), "eqm:final-raise"):
+                yield s3, (ExcVal(_Missing, (), "evaluate_quality_metric") if r else SReal(FINAL(nxt.z)))
+
+
+def spec_axioms(actions):
+    j = z3.Int("j!c03")
+    act = lambda i: z3.Select(actions.arr, i)     # noqa: E731
+    metric = z3.Const("the_metric", _M)
+    step = z3.If(is_costs(metric), COST(TR(j), B._uf("ActionInstance03.action", _A, _AC)(act(j)), B._uf("ActionInstance03.actual_parameters", _A, _P)(act(j))), 1)
+    return [TR(0) == S0, MS(0) == 0,
+            z3.ForAll([j], z3.Implies(j >= 0, TR(j + 1) == NEXT(TR(j), act(j))), patterns=[TR(j + 1)]),
+            z3.ForAll([j], z3.Implies(j >= 0, MS(j + 1) == MS(j) + step), patterns=[MS(j + 1)])], metric
+
+
+def stepok(actions, metric_present, metric, j):
+    a = z3.Select(actions.arr, j)
+    acn, prm = B._uf("ActionInstance03.action", _A, _AC)(a), B._uf("ActionInstance03.actual_parameters", _A, _P)(a)
+    return z3.And(UCRAISE(TR(j), a) == 0, UCLEN(TR(j), a) == 0, APRAISE(TR(j), a) == 0,
+                  z3.Implies(z3.And(metric_present, is_costs(metric)), COSTRAISE(TR(j), acn, prm) == 0))
+
+
+class Validate(Unit):
+    prop = "C03"
+    name = "SequentialPlanValidator._validate"
+    doc = "VALID iff every step is executable and the goals hold at the end; INVALID with a reason; no other exception; metric = specified value"
+    allowed_raises = (_ProbDef, _Usage)
+
+    def target(self):
+        return _pv.SequentialPlanValidator._validate
+
+    def configure(self, eng):
+        _sim_contracts()
+
+        def new_sim(eng_, st, args, kw):
+            st.ghost["simulators"] = st.ghost.get("simulators", 0) + 1
+            yield st, Sim03.fresh("simulator")
+        eng.contracts[_ss.UPSequentialSimulator] = new_sim
+        eng.contracts[_ss.evaluate_quality_metric] = _eqm_contract
+        QNV = "unified_planning.engines.plan_validator.SequentialPlanValidator._validate"
+
+        def inv(L):
+            i = zint(L._i)
+            actions = self._actions
+            tr = L.trace
+            tr = tr if isinstance(tr, SSeq) else B.as_sseq(L._eng, L.st, tr, State03)
+            j = z3.Int(fresh_name("j"))
+            out = [("trace holds the states after 0..i instances", z3.And(tr.n == i + 1, z3.ForAll([j], z3.Implies(z3.And(0 <= j, j <= i), z3.Select(tr.arr, j) == TR(j))))),
+                   ("every earlier step was executable", z3.ForAll([j], z3.Implies(z3.And(0 <= j, j < i), stepok(actions, self._mp, self._metric, j)))),
+                   ("no failure message is pending", zbool(B.identical(L._eng, L.st, L.msg, None)))]
+            if self._mp_py is not False:
+                try:
+                    mv = L.metric_value
+                except AttributeError:
+                    mv = None
+                if mv is not None:
+                    stepm = z3.Or(is_costs(self._metric), is_len(self._metric))
+                    out.append(("metric_value = costs summed over the pre-states / number of steps", zreal(mv) == z3.If(stepm, MS(i), 0)))
+            return out
+        eng.loops[(QNV, 0)] = LoopSpec(inv, modifies=["i", "ai", "unsat_conds", "reason", "next_state", "metric_value", "trace", "msg", "e"],
+                                       types={"trace": Seq(State03), "metric_value": PReal, "msg": Opt(Str), "next_state": State03, "ai": AI03})
+
+    def setup(self, eng, st):
+        from pyvc.values import Bool as PB
+        w = st.alloc(Rec(_pv.SequentialPlanValidator, {"skip_checks": PB.fresh("skip_checks"), "error_on_failed_checks": PB.fresh("error_on_failed_checks")}),
+                     "validator")
+        problem = Problem03.fresh("problem")
+        plan = Plan03.fresh("plan")
+        actions = B.field_uf(eng, st, plan, "actions")
+        self._actions = actions
+        ax, metric = spec_axioms(actions)
+        eng.axioms += ax
+        qm = B.field_uf(eng, st, problem, "quality_metrics")
+        self._metric = metric
+        self._mp = qm.n == 1
+        self._mp_py = None
+        st.assume(z3.Implies(qm.n >= 1, z3.Select(qm.arr, 0) == metric))
+        # the metric is one of the supported classes, exactly one of them
+        fl = [is_costs(metric), is_len(metric), is_minfin(metric), is_maxfin(metric), is_over(metric)]
+        st.assume(z3.Or(fl), z3.And([z3.Or(z3.Not(a), z3.Not(b)) for k, a in enumerate(fl) for b in fl[k + 1:]]))
+        return [w, problem, plan], {}, dict(actions=actions, qm=qm, metric=metric, w=w)
+
+    def post(self, eng, ctx, st, out):
+        actions, qm, metric = ctx["actions"], ctx["qm"], ctx["metric"]
+        n = actions.n
+        mp = qm.n == 1
+        j = z3.Int(fresh_name("j"))
+        finalm = z3.And(mp, z3.Not(is_costs(metric)), z3.Not(is_len(metric)))
+        valid_spec = z3.And(z3.ForAll([j], z3.Implies(z3.And(0 <= j, j < n), stepok(actions, mp, metric, j))),
+                            z3.Not(GRAISE(TR(n))), GLEN(TR(n)) == 0, z3.Implies(finalm, z3.Not(FINRAISE(TR(n)))))
+        wrec = st.load(ctx["w"]).fields
+        if out[0] == "raise":
+            if out[1].cls is _ProbDef:
+                st.oblige("UPProblemDefinitionError only for more than one quality metric", qm.n > 1)
+            elif out[1].cls is _Usage:
+                st.oblige("UPUsageError only for an unsupported kind with error_on_failed_checks",
+                          z3.And(z3.Not(zbool(wrec["skip_checks"])), zbool(wrec["error_on_failed_checks"]), z3.Not(z3.Bool("simulator_supports_kind"))))
+            return
+        r = eng.deref(st, out[1])
+        if not isinstance(r, Rec) or r.cls is not _VR:
+            st.oblige("a ValidationResult is returned", z3.BoolVal(False))
+            return
+        f = r.fields
+        status = f["status"]
+        if status is _VS.VALID:
+            st.oblige("VALID only if every step is executable and the final state satisfies the goals", valid_spec)
+            tr = eng.deref(st, f["trace"])
+            tr = tr if isinstance(tr, SSeq) else B.as_sseq(eng, st, tr, State03)
+            st.oblige("VALID: the trace is the sequence of states after 0..n instances",
+                      z3.And(tr.n == n + 1, z3.ForAll([j], z3.Implies(z3.And(0 <= j, j <= n), z3.Select(tr.arr, j) == TR(j)))))
+            me = eng.deref(st, f["metric_evaluations"])
+            if me is None:
+                st.oblige("VALID without metric evaluations only if the problem has no metric", z3.Not(mp))
+            else:
+                if isinstance(me, CDict) and len(me.items) == 1:
+                    (k, v), = me.items.items()
+                    v = eng.deref(st, v)
+                    st.oblige("the reported metric is the problem's metric", z3.And(mp, k.z == metric))
+                    st.oblige("the reported value is the specified one: costs summed over pre-states / plan length / final-state value",
+                              zreal(v) == z3.If(z3.Or(is_costs(metric), is_len(metric)), MS(n), FINAL(TR(n))))
+                elif isinstance(me, SMap):
+                    st.oblige("the reported metric is the problem's metric", z3.And(mp, z3.Select(me.has, metric)))
+                    k = z3.Const(fresh_name("k"), _M)
+                    st.oblige("only the problem's metric is reported", z3.ForAll([k], z3.Implies(z3.Select(me.has, k), k == metric)))
+                    st.oblige("the reported value is the specified one: costs summed over pre-states / plan length / final-state value",
+                              z3.Select(me.val, metric) == z3.If(z3.Or(is_costs(metric), is_len(metric)), MS(n), FINAL(TR(n))))
+                else:
+                    raise Unsupported(f"metric_evaluations {me!r}")
+        elif status is _VS.INVALID:
+            st.oblige("INVALID only if some step is not executable or the goals do not hold at the end", z3.Not(valid_spec))
+            st.oblige("INVALID carries a failure reason", z3.BoolVal(f["reason"] is not None))
+            logs = eng.deref(st, f["log_messages"])
+            st.oblige("INVALID carries a message", z3.BoolVal(isinstance(logs, CList) and len(logs.items) >= 1))
+            st.oblige("INVALID reports no metric value", z3.BoolVal(f["metric_evaluations"] is None))
+        else:
+            st.oblige("status is VALID or INVALID", z3.BoolVal(False))
+
+
+# ----------------------------------------------------------------------------------------------- evaluate_quality_metric
+Param03 = Ref("Parameter03")
+Action03.fields["parameters"] = Seq(Param03)
+SE03 = Ref("StateEvaluator03")
+_N = FN03.z3sort()
+EV = z3.Function("evaluate", _N, _S, _N)
+EVRAISE = z3.Function("evaluate.raises", _N, _S, z3.BoolSort())
+CV = z3.Function("constant_value", _N, z3.RealSort())
+BV = z3.Function("bool_constant_value", _N, z3.BoolSort())
+_PARR = z3.ArraySort(z3.IntSort(), Param03.z3sort())
+_NARR = z3.ArraySort(z3.IntSort(), _N)
+SUBST = z3.Function("substitute_parameters", _N, _PARR, z3.IntSort(), _NARR, z3.IntSort(), _N)
+COSTEXP_NONE = z3.Function("get_action_cost.isnone", _M, _AC, z3.BoolSort())
+COSTEXP = z3.Function("get_action_cost", _M, _AC, _N)
+FINEXP = z3.Function("metric.expression", _M, _N)
+GS = z3.Function("gain_sum", z3.IntSort(), z3.RealSort())
+PITEMS_ARR = z3.Function("actual_parameters.items", _P, _NARR)
+PITEMS_LEN = z3.Function("actual_parameters.len", _P, z3.IntSort())
+FN03.methods["constant_value"] = lambda eng, st, x, args, kw: iter([(st, SReal(CV(x.z)))])
+FN03.methods["bool_constant_value"] = lambda eng, st, x, args, kw: iter([(st, SBool(BV(x.z)))])
+
+
+def _fn_substitute(eng, st, x, args, kw):
+    m = args[0]
+    if not isinstance(m, B.ZipDict):
+        raise Unsupported("substitute with a map that is not dict(zip(parameters, values))")
+    yield st, FN03.wrap(SUBST(x.z, m.keys.arr, m.keys.n, m.values.arr, m.values.n))
+
+
+FN03.methods["substitute"] = _fn_substitute
+FN03.isinstance_hook = lambda e, st, v, clss: True
+FN03.pycls = _up.model.FNode
+
+
+def _se_evaluate(eng, st, selfv, args, kw):
+    exp, state = args
+    st.ghost["evaluations"] = st.ghost.get("evaluations", ()) + ((exp.z, state.z),)
+    for s, r in eng.branch(st, EVRAISE(exp.z, state.z), "evaluate:raise"):
+        yield s, (ExcVal(_Missing, (), "StateEvaluator.evaluate") if r else FN03.wrap(EV(exp.z, state.z)))
+
+
+SE03.methods["evaluate"] = _se_evaluate
+Metric03.methods["get_action_cost"] = lambda eng, st, m, args, kw: iter([(st, SUnion([(COSTEXP_NONE(m.z, args[0].z), None),
+                                                                                       (z3.Not(COSTEXP_NONE(m.z, args[0].z)), FN03.wrap(COSTEXP(m.z, args[0].z)))]))])
+Metric03.fields["expression"] = FN03
+Metric03.fields["goals"] = Map(FN03, PReal, ordered=True)
+Metric03.isinstance_hook = lambda e, st, v, clss: True
+Metric03.pycls = _up.model.metrics.PlanQualityMetric
+SimRec03 = Ref("SimulatorWithProblem03", fields={"_problem": Problem03})
+
+
+class EvaluateQualityMetric(Unit):
+    prop = "C03"
+    name = "evaluate_quality_metric"
+    doc = ("action cost = the metric's cost expression with the action's parameters replaced by the actual ones, evaluated in `state` (the pre-state), added "
+           "to the running value; plan length + 1; final-state expression / oversubscription gain evaluated in `next_state`")
+    allowed_raises = (_Usage, _Missing)
+
+    def target(self):
+        return _ss.evaluate_quality_metric
+
+    def configure(self, eng):
+        def new_se(eng_, st, args, kw):
+            yield st, SE03.fresh("se")
+        eng.contracts[_ss.StateEvaluator] = new_se
+        QNE = "unified_planning.engines.sequential_simulator.evaluate_quality_metric"
+
+        def inv(L):
+            i = zint(L._i)
+            j = z3.Int(fresh_name("j"))
+            keys = self._goals.keys
+            return [("total_gain = gains of the scanned goals that hold in next_state", zreal(L.total_gain) == GS(i)),
+                    ("no scanned goal failed to evaluate", z3.ForAll([j], z3.Implies(z3.And(0 <= j, j < i), z3.Not(EVRAISE(z3.Select(keys.arr, j), self._nxt.z)))))]
+        eng.loops[(QNE, 0)] = LoopSpec(inv, modifies=["goal", "gain", "total_gain"], types={"total_gain": PReal, "goal": FN03, "gain": PReal})
+
+    def setup(self, eng, st):
+        sim = SimRec03.fresh("simulator")
+        metric = Metric03.fresh("metric")
+        state, nxt = State03.fresh("state"), State03.fresh("next_state")
+        action = Action03.fresh("action")
+        pp = Params03.fresh("parameters")
+        params = SSeq(FN03, PITEMS_ARR(pp.z), PITEMS_LEN(pp.z))
+        st.assume(params.n >= 0)
+        mv = PReal.fresh("metric_value")
+        self._nxt = nxt
+        goals = B.field_uf(eng, st, metric, "goals")
+        eng.assume_wf(st, goals)
+        self._goals = goals
+        m = metric.z
+        fl = [is_costs(m), is_len(m), is_minfin(m), is_maxfin(m), is_over(m)]
+        st.assume(z3.Or(fl), z3.And([z3.Or(z3.Not(a), z3.Not(b)) for k, a in enumerate(fl) for b in fl[k + 1:]]))
+        j = z3.Int("j!gs")
+        gk = z3.Select(goals.keys.arr, j)
+        eng.axioms += [GS(0) == 0,
+                       z3.ForAll([j], z3.Implies(j >= 0, GS(j + 1) == GS(j) + z3.If(BV(EV(gk, nxt.z)), z3.Select(goals.val, gk), 0)), patterns=[GS(j + 1)])]
+        return [sim, metric, mv, state, action, st.alloc(params, "tuple") if False else params, nxt], {}, \
+            dict(metric=metric, state=state, nxt=nxt, action=action, pp=pp, params=params, mv=mv, goals=goals)
+
+    def post(self, eng, ctx, st, out):
+        m, state, nxt, action, params, mv, goals = ctx["metric"].z, ctx["state"], ctx["nxt"], ctx["action"], ctx["params"], ctx["mv"], ctx["goals"]
+        aps = B.field_uf(eng, st, action, "parameters")
+        costexp = COSTEXP(m, action.z)
+        grounded = SUBST(costexp, aps.arr, aps.n, params.arr, params.n)
+        usage = z3.Or(COSTEXP_NONE(m, action.z), aps.n != params.n)
+        j = z3.Int(fresh_name("j"))
+        gk = z3.Select(goals.keys.arr, j)
+        some_goal_raises = z3.Exists([j], z3.And(0 <= j, j < goals.keys.n, EVRAISE(gk, nxt.z)))
+        finexp = B._uf("Metric03.expression", _M, _N)(m)
+        evs = st.ghost.get("evaluations", ())
+        if out[0] == "raise":
+            if out[1].cls is _Usage:
+                st.oblige("UPUsageError only for action costs without a cost for the action / with a wrong number of parameters", z3.And(is_costs(m), usage))
+            else:
+                st.oblige("UPStateMissingFluentError only when the evaluation it specifies is undefined",
+                          z3.Or(z3.And(is_costs(m), z3.Not(usage), EVRAISE(grounded, state.z)),
+                                z3.And(z3.Or(is_minfin(m), is_maxfin(m)), EVRAISE(finexp, nxt.z)),
+                                z3.And(is_over(m), some_goal_raises)))
+            return
+        r = out[1]
+        rz = zreal(r)
+        st.oblige("action costs: running value + cost expression (parameters replaced by the actual ones) evaluated in the PRE-state",
+                  z3.Implies(is_costs(m), z3.And(z3.Not(usage), z3.Not(EVRAISE(grounded, state.z)), rz == mv.z + CV(EV(grounded, state.z)))))
+        st.oblige("plan length: running value + 1", z3.Implies(is_len(m), rz == mv.z + 1))
+        st.oblige("final-state metrics: the expression evaluated in next_state",
+                  z3.Implies(z3.Or(is_minfin(m), is_maxfin(m)), z3.And(z3.Not(EVRAISE(finexp, nxt.z)), rz == CV(EV(finexp, nxt.z)))))
+        st.oblige("oversubscription: the sum of the gains of the goals that hold in next_state",
+                  z3.Implies(is_over(m), z3.And(z3.Not(some_goal_raises), rz == GS(goals.keys.n))))
+        for (e_, s_) in evs:
+            st.oblige("every evaluation is on the state the metric kind prescribes", z3.If(is_costs(m), s_ == state.z, s_ == nxt.z))
+
+
+UNITS = [Validate(), EvaluateQualityMetric()]
+TRUSTED = ["the simulator's operations are used by contract: each returns or raises one of UPUsageError / UPInvalidActionError / UPConflictingEffectsException / "
+           "UPStateMissingFluentError; what they compute is C01 / C02 (bounded layer and kernels there)",
+           "the problem's metric is one of the five supported metric classes"]
